@@ -377,6 +377,21 @@ func cmdC12(tier string, seed int64, out, statsOut, replay string) {
 	twice := append(append([]string{}, allFormats...), allFormats...)
 	for ci := 0; ci < nCfg; ci++ {
 		gen := histConfig(g, ci*3) // every one with a tree and a per-format umask
+		docBuildable := marshalConfig(&gen.cfg) // before anything below makes a format fail: the signed cases need every build to succeed
+		switch ci % 4 {
+		case 1:
+			// no maintainer: deb and ipk fill in a default and print a notice - the first packagings of a process that do
+			// so are these, all at once
+			gen.cfg.Maintainer = ""
+		case 2:
+			// a pattern one of whose matches collides with an entry addressed to ONE format: that format fails while the
+			// others, reading the same entries, build
+			broken := allFormats[(ci/4)%len(allFormats)]
+			gen.cfg.Contents = append(gen.cfg.Contents,
+				&files.Content{Source: "src/d/x", Destination: fmt.Sprintf("/etc/conc%d/x", ci), Packager: broken},
+				&files.Content{Source: "src/d/*", Destination: fmt.Sprintf("/etc/conc%d", ci), Type: files.TypeConfig},
+				&files.Content{Source: "src/k/conf.d", Destination: fmt.Sprintf("/etc/conc%d/conf.d", ci)})
+		}
 		doc := marshalConfig(&gen.cfg)
 		// the same with a payload of several MiB: block sizes and work splitting of the parallel compressors come into play
 		bigCfg := gen.cfg
@@ -394,7 +409,7 @@ func cmdC12(tier string, seed int64, out, statsOut, replay string) {
 			// signed packagings with a passphrase-protected key, from independent configurations (each child process
 			// is one chance to see the first use of the key from many goroutines at once)
 			for k := 0; k < 2; k++ {
-				runC12Case(w, fmt.Sprintf("signed-%d-p%d-%d", ci, p, k), concDesc{YAML: doc, Files: gen.files, Mode: "signed",
+				runC12Case(w, fmt.Sprintf("signed-%d-p%d-%d", ci, p, k), concDesc{YAML: docBuildable, Files: gen.files, Mode: "signed",
 					Formats: []string{"deb", "rpm", "deb", "rpm", "deb", "rpm", "deb", "rpm", "apk", "apk", "deb", "rpm"}, Procs: p, Rounds: 1, Seed: seed + int64(ci)}, st)
 			}
 			// the format with a shared atomic counter and a parallel compressor, several at once
